@@ -1536,6 +1536,44 @@ def f14(ctx):
                           '%s: %s defaults to %r, every other entry point uses %r: the same call '
                           'behaves differently here' % (q, arg.arg, d.value, want), mod.loc(fn))
     ctx.analysed['option_defaults'] = n
+    # the engine's own entry points (pybind11 argument defaults): the same three options, and the
+    # `strict` / `inherit_global_namespace` defaults the Python wrappers and D3 assume
+    prog = ctx.cxx()
+    bt = binding_table(prog)
+    want_cxx = {'none_is_leaf': 'False', 'namespace': '""', 'leaf_predicate': 'nullopt',
+                'inherit_global_namespace': 'True'}
+    m = 0
+    for (owner, name), b in sorted(bt.items()):
+        for an, d in b.args:
+            if d is None or an not in want_cxx:
+                continue
+            m += 1
+            ctx.check('_C.%s.%s/%s' % (owner, name, an), d == want_cxx[an],
+                      '_C %s.%s: %s defaults to %s' % (owner, name, an, want_cxx[an]),
+                      '_C %s.%s: %s defaults to %s, every other entry point uses %s'
+                      % (owner, name, an, d, want_cxx[an]), getattr(b.node, 'loc', None))
+    # is_prefix / is_suffix are non-strict by default, is_leaf strict: the Python wrappers
+    # (treespec_is_prefix(..., strict=False), treespec_is_leaf(..., strict=True)) say the same
+    mod = pkg.mod('optree.ops')
+    for meth, wrapper in (('is_prefix', 'treespec_is_prefix'), ('is_suffix', 'treespec_is_suffix'),
+                          ('is_leaf', 'treespec_is_leaf')):
+        b = bt.get(('PyTreeSpec', meth))
+        fn = mod.funcs.get(wrapper)
+        if b is None or fn is None:
+            continue
+        cd = dict(b.args).get('strict')
+        a = fn.args
+        pd = None
+        for arg, d in list(zip((a.posonlyargs + a.args)[len(a.posonlyargs + a.args) - len(a.defaults):], a.defaults)) + \
+                [(x, d) for x, d in zip(a.kwonlyargs, a.kw_defaults) if d is not None]:
+            if arg.arg == 'strict' and isinstance(d, ast.Constant):
+                pd = str(d.value)
+        m += 1
+        ctx.check('_C.PyTreeSpec.%s/strict~%s' % (meth, wrapper), cd is not None and cd == pd,
+                  'PyTreeSpec.%s and %s agree on strict=%s by default' % (meth, wrapper, cd),
+                  'PyTreeSpec.%s defaults to strict=%s, %s to strict=%s: the method and the function '
+                  'answer differently for the same call' % (meth, cd, wrapper, pd), mod.loc(fn))
+    ctx.analysed['engine_option_defaults'] = m
 
 
 @rule('T9', floor=4, title='tree_flatten_one_level reports the node as the registry entry describes it')
